@@ -9,19 +9,23 @@ def Sound (N : Num K) (Q : Quant K) (σ : String → Val K) (F : String → Val 
   ∀ ρ, evalR N Q (div0H N) σ F ρ r = evalH N Q σ F ρ t
 
 theorem ofNatVar_good (x : String) : Good N σ (ofNatVarM x) (Sound N Q σ F (.ofNatVar x)) := by
-  intro s r s' hrun
+  intro s res s' hrun
   unfold ofNatVarM at hrun
   split at hrun
   · rename_i rx hl
-    simp only [Prod.mk.injEq, Except.ok.injEq] at hrun
+    simp only [Prod.mk.injEq] at hrun
     obtain ⟨rfl, rfl⟩ := hrun
-    refine ⟨Ext.refl _, fun ht ρ => ?_⟩
+    refine ⟨Ext.refl _, fun a ha ht ρ => ?_⟩
+    simp only [Except.ok.injEq] at ha
+    subst ha
     show σ rx = vtoReal N (σ x)
     exact ht x rx hl
   · rename_i hl
-    simp only [Prod.mk.injEq, Except.ok.injEq] at hrun
+    simp only [Prod.mk.injEq] at hrun
     obtain ⟨rfl, rfl⟩ := hrun
-    refine ⟨fun y ry h => lookup_append_some _ _ _ _ h, fun ht ρ => ?_⟩
+    refine ⟨fun y ry h => lookup_append_some _ _ _ _ h, fun a ha ht ρ => ?_⟩
+    simp only [Except.ok.injEq] at ha
+    subst ha
     show σ _ = vtoReal N (σ x)
     exact ht x _ (lookup_append_none _ _ _ hl)
 
